@@ -24,6 +24,7 @@ structure Mib where
   mobile : Nat             -- itsGnIsMobile.value
   defaultHopLimit : Nat    -- itsGnDefaultHopLimit
   defaultLifetimeS : Nat   -- itsGnDefaultPacketLifetime
+  defaultTc : Nat          -- itsGnDefaultTrafficClass (the TC octet)
 deriving DecidableEq, Repr
 
 structure Area where
@@ -60,11 +61,11 @@ def commonOfRequest (r : Request) (mib : Mib) : CommonHeader :=
 /-- `CommonHeader.initialize_beacon` -/
 def commonBeacon (v : Variant) (mib : Mib) : CommonHeader :=
   { nh := CommonNH_ANY, reserved := 0, ht := HeaderType_BEACON, hst := HeaderSubType_UNSPECIFIED,
-    tc := ⟨false, false, 0⟩, flags := if v.beaconFlagFixed then mib.mobile <<< 7 else mib.mobile, pl := 0, mhl := 1 }
+    tc := TrafficClass.decodeInt mib.defaultTc, flags := if v.beaconFlagFixed then mib.mobile <<< 7 else mib.mobile, pl := 0, mhl := 1 }
 
 /-- the common header built in `_send_ls_request_packet` / `gn_data_indicate_ls_request` (reply) -/
 def commonLS (mib : Mib) (hst : Nat) : CommonHeader :=
-  { nh := CommonNH_ANY, reserved := 0, ht := HeaderType_LS, hst, tc := ⟨false, false, 0⟩,
+  { nh := CommonNH_ANY, reserved := 0, ht := HeaderType_LS, hst, tc := TrafficClass.decodeInt mib.defaultTc,
     flags := mib.mobile <<< 7, pl := 0, mhl := mib.defaultHopLimit }
 
 def cat3 (a b c : Except Err Bytes) (tail : Bytes) : Except Err Bytes := do
